@@ -26,7 +26,7 @@ from .h18_members import (FIXED_TENSOR_ITEMS, FLOAT_ITEMS, OTHER_ITEMS, SEQ_ITEM
                           edit_value, eq, snap)
 
 LEVEL = "exploration"
-RULE = ("three case families. 'pipe': a harness sequence dataset (fixed shapes), a mode of 1..4 distinct items (tensors "
+RULE = ("four case families. 'pipe': a harness sequence dataset (fixed shapes), a mode of 1..4 distinct items (tensors "
         "of several ranks/dtypes, 0-dim tensor, int, str, index, ctx.<key>), return_ctx, B in 1..8 sample indices "
         "(random order, optional repeats), a member order of length 1..4 over {before, after, none (collates itself), "
         "none-raw (per-sample member that returns the samples uncollated)} (all 156 driven orders are enumerated first, "
@@ -37,7 +37,9 @@ RULE = ("three case families. 'pipe': a harness sequence dataset (fixed shapes),
         "behind 2..4 entry points with different dataset_mode / return_ctx (two KDSingleCollatorWrappers, the member "
         "configured for direct use and additionally wrapped, the member inside two KDComposeCollators, mixes), built in a "
         "random order and called 3..9 times in interleaved order, every call judged by the pipe oracle under the "
-        "configuration of the entry point it went to. distinct by full spec; "
+        "configuration of the entry point it went to. 'padhist': 2..4 batches through ONE PadSequencesCollator instance "
+        "(direct / wrapper / compose), two thirds with equal padded shape but different length profiles per batch, all "
+        "returned batches and ctx kept and verified after the last call. distinct by full spec; "
         "non-trivial = B >= 2 or a mode of >= 2 items")
 ASSUMPTIONS = [
     "ModeWrapper.return_ctx equals the collator's return_ctx (the pipeline's own assertion message demands it); the only "
@@ -60,12 +62,14 @@ ASSUMPTIONS = [
     "(what default collation can batch); ctx values of ragged shape are not driven",
     "items are tensors, ints, strings; items that are themselves tuples/dicts are not driven for the padding collator",
     "KDSingleCollatorWrapper is held to the same contract as KDComposeCollator with one member",
+    "a padding collator instance is stateless across batches: every result it returned stays correct while later "
+    "batches go through the same instance (results are kept, as a prefetching DataLoader keeps them, and verified at the end)",
     "one member instance may sit behind several entry points (wrappers, composes, its own direct configuration); every "
     "entry point is held to its own dataset_mode / return_ctx whatever was built or called before (the member's only "
     "state in the harness is its log; stateful members are not driven)",
 ]
 MONITORS = ["pipeline_outputs_checked", "member_inputs_checked", "ctx_merges_checked", "order_refusals_checked",
-            "pad_fields_checked", "pad_other_fields_checked", "pad_ctx_checked", "shared_entry_calls_checked"]
+            "pad_fields_checked", "pad_other_fields_checked", "pad_ctx_checked", "shared_entry_calls_checked", "pad_history_results_checked"]
 
 REFUSAL = "raw-member-after-collation"
 K_WRAPPER = "wrapper:bypasses-pipeline"
@@ -226,12 +230,49 @@ def _gen_shared(rng, i):
             "la": rng.choice([0, 1, 2, 3, 3]), "lb": rng.choice([0, 1, 2]), "trail": rng.choice([[], [], [1], [3], [2, 2]])}
 
 
+def _gen_padhist(rng, i):
+    """2..4 batches through ONE padding collator instance; consecutive batches of equal padded shape with different
+    length profiles are the point (i % 3 != 2), the rest are arbitrary successions"""
+    n = rng.choice([1, 1, 1, 2, 3])
+    mode = _pick_mode(rng, PIPE_ITEMS, n, need=list(SEQ_ITEMS))
+    if n == 1 and i % 2 == 0:
+        mode = [rng.choice(SEQ_ITEMS)]
+    builder = ["compose", "single", "wrapper"][i % 3] if i < 30 else rng.choice(["compose", "compose", "single", "wrapper"])
+    sample_ctx = rng.random() < 0.4
+    ret_ctx = sample_ctx
+    if sample_ctx and builder != "wrapper" and rng.random() < 0.5:
+        ret_ctx = False
+    same = i % 3 != 2
+    B0, ma, mb = _B(rng), rng.randint(1, 6), rng.randint(1, 6)
+    steps = []
+    for _ in range(rng.randint(2, 4)):
+        if same:
+            B = B0
+            la = [rng.randint(0, ma) for _ in range(B)]
+            lb = [rng.randint(0, mb) for _ in range(B)]
+            la[rng.randrange(B)] = ma
+            lb[rng.randrange(B)] = mb
+            idxs = rng.sample(range(B), B)
+            nd = B
+        else:
+            B = _B(rng)
+            nd = B + rng.randint(0, 2)
+            la, lb = _lens(rng, rng.choice(PROFILES), nd), _lens(rng, rng.choice(PROFILES), nd)
+            idxs = _idxs(rng, nd, B)
+        steps.append({"nd": nd, "la": la, "lb": lb, "idxs": idxs})
+    return {"fam": "padhist", "builder": builder, "mode": " ".join(mode), "sample_ctx": sample_ctx, "ret_ctx": ret_ctx,
+            "same_shape": same, "steps": steps, "trail": rng.choice([[], [], [1], [3], [2, 2]])}
+
+
 def gen_cases(run):
     total = run.n(12000, 400000)
     rng = run.rng
     for i in range(total):
         if i % 8 == 7:
             yield _gen_shared(rng, i // 8)
+            continue
+        if i % 8 == 3:
+            yield _gen_padhist(rng, i // 8)
             continue
         spec = _gen_pipe(rng, i // 2) if i % 2 == 0 else _gen_pad(rng, i // 2)
         if spec["B"] < 2 and len(spec["mode"].split(" ")) < 2:
@@ -517,44 +558,15 @@ def _pad_desc(spec):
             f"return_ctx={spec['ret_ctx']} B={spec['B']} idxs={spec['idxs']} la={spec['la']} lb={spec['lb']} trail={spec['trail']}")
 
 
-def _run_pad(run, spec):
-    mode, sctx, rctx, builder = spec["mode"], spec["sample_ctx"], spec["ret_ctx"], spec["builder"]
-    mode_items = mode.split(" ")
-    n = len(mode_items)
-    desc = _pad_desc(spec)
-    batch = _build_batch(run, spec, sctx)
-    if batch is None:
-        return
-    raw, ctxs = _split(batch, sctx)
+def _pad_fields(raw, n):
     fields = [[s for s in raw]] if n == 1 else [[s[j] for s in raw] for j in range(n)]
-    is_seq = [torch.is_tensor(f[0]) and f[0].ndim > 0 for f in fields]
-    run.cover("pad", builder, sctx, rctx, min(n, 3), spec["profile"], min(spec["B"], 2), any(is_seq))
+    return fields, [torch.is_tensor(f[0]) and f[0].ndim > 0 for f in fields]
 
-    def construct():
-        if builder == "single":
-            return PadSequencesCollator(dataset_mode=mode, return_ctx=rctx)
-        if builder == "wrapper":
-            return KDSingleCollatorWrapper(PadSequencesCollator(), dataset_mode=mode, return_ctx=rctx)
-        return KDComposeCollator([PadSequencesCollator()], dataset_mode=mode, return_ctx=rctx)
 
-    bare_nonseq = n == 1 and not is_seq[0]
-
-    def key(default):
-        return K_WRAPPER if builder == "wrapper" else default
-
-    def crash_key(e, kind):
-        if builder == "wrapper":
-            return K_WRAPPER
-        if bare_nonseq:
-            return K_PAD_BARE
-        return "pad:refused-in-domain" if kind == "guard" else "pad:crash"
-
-    st, coll = _guarded(run, construct, None, key("pad:constructor"), f"constructing {desc}")
-    if st != "ok":
-        return
-    st, res = _guarded(run, lambda: coll(batch), None, crash_key, desc)
-    if st != "ok":
-        return
+def _pad_verify(run, desc, key, mode_items, sctx, raw, ctxs, res):
+    """the padding oracle for one returned result against the samples that went in. -> True iff nothing was reported"""
+    n = len(mode_items)
+    fields, is_seq = _pad_fields(raw, n)
     # samples that carry ctx come back as (batch, ctx) (pinned by the repository's tests also for return_ctx=False)
     if sctx:
         if not (isinstance(res, (tuple, list)) and len(res) == 2 and isinstance(res[1], dict)):
@@ -605,6 +617,111 @@ def _run_pad(run, spec):
             run.violation(key("pad:ctx-values"), f"{desc}: ctx[{wrong[0]!r}] = {describe(octx[wrong[0]])}, expected {describe(want_ctx[wrong[0]])}")
             return
     run.sample({"case": desc, "result": describe(res)[:300]}, cap=6)
+    return True
+
+
+def _run_pad(run, spec):
+    mode, sctx, rctx, builder = spec["mode"], spec["sample_ctx"], spec["ret_ctx"], spec["builder"]
+    mode_items = mode.split(" ")
+    n = len(mode_items)
+    desc = _pad_desc(spec)
+    batch = _build_batch(run, spec, sctx)
+    if batch is None:
+        return
+    raw, ctxs = _split(batch, sctx)
+    fields, is_seq = _pad_fields(raw, n)
+    run.cover("pad", builder, sctx, rctx, min(n, 3), spec["profile"], min(spec["B"], 2), any(is_seq))
+
+    def construct():
+        if builder == "single":
+            return PadSequencesCollator(dataset_mode=mode, return_ctx=rctx)
+        if builder == "wrapper":
+            return KDSingleCollatorWrapper(PadSequencesCollator(), dataset_mode=mode, return_ctx=rctx)
+        return KDComposeCollator([PadSequencesCollator()], dataset_mode=mode, return_ctx=rctx)
+
+    bare_nonseq = n == 1 and not is_seq[0]
+
+    def key(default):
+        return K_WRAPPER if builder == "wrapper" else default
+
+    def crash_key(e, kind):
+        if builder == "wrapper":
+            return K_WRAPPER
+        if bare_nonseq:
+            return K_PAD_BARE
+        return "pad:refused-in-domain" if kind == "guard" else "pad:crash"
+
+    st, coll = _guarded(run, construct, None, key("pad:constructor"), f"constructing {desc}")
+    if st != "ok":
+        return
+    st, res = _guarded(run, lambda: coll(batch), None, crash_key, desc)
+    if st != "ok":
+        return
+    _pad_verify(run, desc, key, mode_items, sctx, raw, ctxs, res)
+
+
+K_PAD_STATE = "pad:state-carried-between-batches"
+
+
+def _pad_collator(builder, mode, rctx):
+    if builder == "single":
+        return PadSequencesCollator(dataset_mode=mode, return_ctx=rctx)
+    if builder == "wrapper":
+        return KDSingleCollatorWrapper(PadSequencesCollator(), dataset_mode=mode, return_ctx=rctx)
+    return KDComposeCollator([PadSequencesCollator()], dataset_mode=mode, return_ctx=rctx)
+
+
+def _run_padhist(run, spec):
+    """a history of batches through one collator instance; every returned (batch, ctx) is kept - as a prefetching
+    DataLoader does - and all of them are verified only after the last call"""
+    mode, sctx, rctx, builder = spec["mode"], spec["sample_ctx"], spec["ret_ctx"], spec["builder"]
+    mode_items = mode.split(" ")
+    n = len(mode_items)
+    run.cover("padhist", builder, sctx, rctx, min(n, 2), spec["same_shape"], len(spec["steps"]))
+
+    def key(default):
+        return K_WRAPPER if builder == "wrapper" else default
+
+    head = (f"PadSequencesCollator via {builder} mode={mode!r} samples_with_ctx={sctx} return_ctx={rctx} trail={spec['trail']}, "
+            f"{len(spec['steps'])} batches through one instance")
+    st, coll = _guarded(run, lambda: _pad_collator(builder, mode, rctx), None, key("pad:constructor"), f"constructing {head}")
+    if st != "ok":
+        return
+    kept = []
+    for t, step in enumerate(spec["steps"]):
+        bspec = dict(spec, **step)
+        batch = _build_batch(run, bspec, sctx)
+        if batch is None:
+            return
+        raw, ctxs = _split(batch, sctx)
+        desc = f"{head}; batch {t}: idxs={step['idxs']} la={step['la']} lb={step['lb']}"
+        st, res = _guarded(run, lambda: coll(batch), None, lambda e, kind: key("pad:refused-in-domain" if kind == "guard" else "pad:crash"), desc)
+        if st != "ok":
+            return
+        kept.append((t, bspec, desc, raw, ctxs, res))
+    for t, bspec, desc, raw, ctxs, res in kept:
+        probe = _probe(run)
+        _pad_verify(probe, desc + f" (verified after all {len(kept)} calls)", key, mode_items, sctx, raw, ctxs, res)
+        if not probe.violations:
+            run.counters.update(probe.counters)
+            run.count("pad_history_results_checked")
+            _probes.append(probe)
+            continue
+        # differential classification: the same batch through a fresh instance. Fails there too -> an ordinary padding
+        # defect (its own key); only fails in the history -> state carried from one batch to another
+        iso = _probe(run)
+        try:
+            b2 = _build_batch(iso, bspec, sctx)
+            r2, c2 = _split(b2, sctx)
+            _pad_verify(iso, desc + " [same batch, fresh collator]", key, mode_items, sctx, r2, c2, _pad_collator(builder, mode, rctx)(b2))
+        except Exception:  # noqa: BLE001
+            iso.violations.append(probe.violations[0])
+        if iso.violations:
+            run.violation(iso.violations[0]["key"], iso.violations[0]["what"])
+        else:
+            v = probe.violations[0]
+            run.violation(K_PAD_STATE, f"{v['what']}\n(the same batch through a fresh collator instance is correct; first reported as {v['key']})")
+        return
 
 
 # ------------------------------------------------------------------------------------------------ shared-member family
@@ -689,5 +806,7 @@ def run_case(run, spec):
         _run_pipe(run, spec)
     elif spec["fam"] == "shared":
         _run_shared(run, spec)
+    elif spec["fam"] == "padhist":
+        _run_padhist(run, spec)
     else:
         _run_pad(run, spec)
